@@ -390,6 +390,7 @@ pub fn property() -> Property {
         id: "C06",
         cases,
         clauses: &["later-ops-error", "await-error", "join-none", "timers-stop", "children-released", "bystander-unharmed", "registry-not-running"],
+        full_rerun_check: true,
         assumptions: &[
             "single faults (pairs are not built); cancellation is modelled as the executor dropping the actor task's future instead of performing its j-th poll",
             "release semantics: the debug_assert!(ping) trip-wire in from_registry is compiled out",
